@@ -376,8 +376,13 @@ func ruleObjStmCrosscheck(c *eng.Ctx) {
 		return
 	}
 	call := byIdx[0]
+	// the entry's fields may be read by the caller and passed down as scalars
+	cl := []*ssa.Function{fn}
+	if g := c.P.Func("reader.(*Reader).GetObject"); g != nil {
+		cl = append(cl, g)
+	}
 	fromField := func(v ssa.Value, field string) bool {
-		for w := range eng.Slice(v, nil) {
+		for w := range eng.SliceInter(v, nil, cl) {
 			if fr, ok := eng.AsField(w); ok && fr.Field == field && strings.HasSuffix(fr.Struct, "core.XRefEntry") {
 				return true
 			}
